@@ -51,5 +51,6 @@ Example c15_matrix :
   matrix SrvTrusted IdTrusted = true /\ matrix SrvTrusted IdOtherCa = false /\ matrix SrvTrusted IdSelfSigned = false
   /\ matrix SrvTrusted IdNone = false /\ matrix SrvTrusted IdServerCertAsClient = false
   /\ matrix SrvOtherCa IdTrusted = false /\ matrix SrvOtherCa IdOtherCa = false /\ matrix SrvOtherCa IdSelfSigned = false
-  /\ matrix SrvOtherCa IdNone = false.
+  /\ matrix SrvOtherCa IdNone = false
+  /\ matrix_trust SrvTrusted IdTrusted true = false /\ matrix_trust SrvOtherCa IdTrusted true = true.
 Proof. vm_compute. repeat split; reflexivity. Qed.
